@@ -5,6 +5,7 @@
 From Coq Require Import NArith List.
 From MW Require Import Model.Base Model.VmTypes Model.Heap Model.VmBase Model.Gc Model.Growth Gen.GcParams
   Proofs.GcProofs Proofs.SymtabProofs Proofs.GrowthProofs.
+From MW Require Proofs.UtilProofs.
 Import ListNotations.
 Open Scope N_scope.
 
@@ -94,9 +95,41 @@ Example C12_example_trace :
   g_cap (grun p (mk_gstate 8192 0 0) [Alloc; Alloc; Collect 5; Alloc; Collect 10]) = 8192.
 Proof. exact growth_example. Qed.
 
-(* OPEN (stated, not proved): the f64 utilisation tests of run_gc coincide with the rational
-   tests of the counter machine for capacities below 2^52 (needs Flocq's real-number
-   lemmas; the thresholds 0.75 are exactly representable) *)
+(* PROVED below (was OPEN): the f64 utilisation tests of run_gc coincide with the rational
+   tests of the counter machine for capacities below 2^52.  The statement is kept as a
+   Definition (it is referred to by name); [C12_util_test_rational] is its proof. *)
 Definition util_test_rational_stmt : Prop :=
   forall used cap, 0 < cap -> cap < 2 ^ 52 -> used <= cap ->
     F64.f64_ltb (utilisation used cap) f64_three_quarters = (used * 100 <? 75 * cap).
+
+(* run.rs:484 `if utilisation < 0.75 { return }` : used/cap is ONE correctly rounded binary64
+   division of two exactly converted integers; 0.75 is a double; a quotient below 3/4 is at
+   least 1/(4 cap) > 2^-54 below it, i.e. strictly nearer to the double 0.75 - 2^-53 than to
+   0.75, so it cannot round up onto the threshold (Proofs/UtilProofs.v).  Uses Flocq's
+   real-number lemmas (Bdiv_correct, round_N_pt), hence the standard Reals axioms. *)
+Theorem C12_util_test_rational : forall used cap, 0 < cap -> cap < 2 ^ 52 -> used <= cap ->
+  F64.f64_ltb (utilisation used cap) f64_three_quarters = (used * 100 <? 75 * cap).
+Proof. exact UtilProofs.util_test_rational. Qed.
+Print Assumptions C12_util_test_rational.
+
+Theorem C12_util_test_rational_stmt_holds : util_test_rational_stmt.
+Proof. exact UtilProofs.util_test_rational. Qed.
+Print Assumptions C12_util_test_rational_stmt_holds.
+
+(* run.rs:503 `if utilisation > 0.75 { grow }` : the second test, same capacities *)
+Theorem C12_util_test_rational_gt : forall used cap, 0 < cap -> cap < 2 ^ 52 -> used <= cap ->
+  F64.f64_ltb f64_three_quarters (utilisation used cap) = (75 * cap <? used * 100).
+Proof. exact UtilProofs.util_test_rational_gt. Qed.
+Print Assumptions C12_util_test_rational_gt.
+
+(* non-vacuity, on both sides of the threshold and ON it (chunk 8192: 6144 = 0.75 * 8192),
+   compared through booleans; the last line is a capacity just below the bound where the
+   quotient is 2^-54-close to 3/4 *)
+Example C12_example_util_test :
+  F64.f64_ltb (utilisation 6143 8192) f64_three_quarters = true /\ (6143 * 100 <? 75 * 8192) = true /\
+  F64.f64_ltb (utilisation 6144 8192) f64_three_quarters = false /\
+  F64.f64_ltb f64_three_quarters (utilisation 6144 8192) = false /\
+  F64.f64_ltb f64_three_quarters (utilisation 6145 8192) = true /\
+  F64.f64_ltb (utilisation (3 * 2 ^ 50 - 1) (2 ^ 52 - 1)) f64_three_quarters = true /\
+  ((3 * 2 ^ 50 - 1) * 100 <? 75 * (2 ^ 52 - 1)) = true.
+Proof. vm_compute. repeat split. Qed.
